@@ -13,6 +13,7 @@ import (
 	"log/slog"
 	"net/netip"
 	"sort"
+	"strings"
 
 	"github.com/gaissmai/bart"
 	"github.com/slackhq/nebula/cert"
@@ -114,6 +115,7 @@ type VerifC35Cfg struct {
 	MyNetworks   []netip.Prefix // the node's certificate networks (address + prefix length)
 	InitV1       bool           // CertState.initiatingVersion == Version1
 	Respond      bool           // punchy.respond
+	StaticHosts  []netip.Addr   // further static_host_map entries (hosts that a later reload may name as lighthouses)
 }
 
 type VerifC35Send struct {
@@ -160,9 +162,9 @@ type verifC35Writer struct {
 }
 
 func (w *verifC35Writer) SendVia(*HostInfo, *Relay, []byte, []byte, []byte, bool, int) {}
-func (w *verifC35Writer) Handshake(netip.Addr)                                           {}
-func (w *verifC35Writer) GetHostInfo(netip.Addr) *HostInfo                               { return nil }
-func (w *verifC35Writer) GetCertState() *CertState                                       { return w.cs }
+func (w *verifC35Writer) Handshake(netip.Addr)                                         {}
+func (w *verifC35Writer) GetHostInfo(netip.Addr) *HostInfo                             { return nil }
+func (w *verifC35Writer) GetCertState() *CertState                                     { return w.cs }
 func (w *verifC35Writer) SendMessageToHostInfo(t header.MessageType, st header.MessageSubType, hi *HostInfo, p, _, _ []byte) {
 	m, ok := VerifC35Unmarshal(p)
 	d := netip.Addr{}
@@ -184,6 +186,9 @@ type VerifC35 struct {
 	items  []*schedItem[holepunchJob]
 	ids    map[*RemoteList]uint64
 	cancel context.CancelFunc
+	c      *config.C
+	cfg    VerifC35Cfg
+	static map[string]any
 }
 
 const VerifC35HeaderType = uint8(header.LightHouse)
@@ -196,6 +201,11 @@ func VerifNewC35(cfg VerifC35Cfg) (*VerifC35, error) {
 	for i, a := range cfg.Lighthouses {
 		static[a.String()] = []any{fmt.Sprintf("192.0.2.%d:4242", 1+i%250)}
 		hosts = append(hosts, a.String())
+	}
+	for i, a := range cfg.StaticHosts {
+		if _, ok := static[a.String()]; !ok {
+			static[a.String()] = []any{fmt.Sprintf("192.0.2.%d:4242", 100+i%100)}
+		}
 	}
 	c.Settings["static_host_map"] = static
 	c.Settings["lighthouse"] = map[string]any{"am_lighthouse": cfg.AmLighthouse, "hosts": hosts}
@@ -233,10 +243,41 @@ func VerifNewC35(cfg VerifC35Cfg) (*VerifC35, error) {
 	w := &verifC35Writer{cs: cs}
 	lh.ifce = w
 	v.lh, v.lhh, v.w, v.p, v.cancel = lh, lh.NewRequestHandler(), w, p, cancel
+	v.c, v.cfg, v.static = c, cfg, static
 	return v, nil
 }
 
 func (v *VerifC35) Close() { v.cancel() }
+
+// ReloadLighthouses is a configuration reload that changes only lighthouse.hosts: config.ReloadConfigString with the
+// same settings otherwise, which runs the reload callbacks NewLightHouseFromConfig / NewPunchyFromConfig registered
+// (the real LightHouse.reload(c, false)).
+func (v *VerifC35) ReloadLighthouses(lhs []netip.Addr) error {
+	var sb strings.Builder
+	sb.WriteString("static_host_map:\n")
+	keys := make([]string, 0, len(v.static))
+	for k := range v.static {
+		keys = append(keys, k)
+	}
+	sort.Strings(keys)
+	for _, k := range keys {
+		fmt.Fprintf(&sb, "  %q: [%q]\n", k, v.static[k].([]any)[0].(string))
+	}
+	fmt.Fprintf(&sb, "lighthouse:\n  am_lighthouse: %v\n  hosts: [", v.cfg.AmLighthouse)
+	for i, a := range lhs {
+		if i > 0 {
+			sb.WriteString(", ")
+		}
+		fmt.Fprintf(&sb, "%q", a.String())
+	}
+	fmt.Fprintf(&sb, "]\nlisten:\n  port: 4242\npunchy:\n  punch: true\n  respond: %v\n  delay: 10h\n  respond_delay: 10h\n", v.cfg.Respond)
+	return v.c.ReloadConfigString(sb.String())
+}
+
+// Lighthouses is the list in force (LightHouse.GetLighthouses).
+func (v *VerifC35) Lighthouses() []netip.Addr {
+	return append([]netip.Addr(nil), v.lh.GetLighthouses()...)
+}
 
 // Handle runs the real HandleRequest. A panic is reported as an observation.
 func (v *VerifC35) Handle(rAddr netip.AddrPort, from []netip.Addr, p []byte) (sends []VerifC35Send, punches []VerifC35Punch, panicked string) {
